@@ -344,10 +344,26 @@ class TFn:
     def cond(self, node, env, pre):
         """-> decidable Lean proposition, or the strings 'True' / 'False' for statically decided tests"""
         if isinstance(node, ast.BoolOp):
-            parts = [self.cond(v, env, pre) for v in node.values]
+            # Python evaluates the operands left to right and stops early: the IndexError guards of a later operand apply
+            # only if the earlier operands did not decide the result
+            is_and = isinstance(node.op, ast.And)
+            parts = []
+            for v in node.values:
+                loc = []
+                c = self.cond(v, env, loc)
+                for item in loc:
+                    if item[0] != 'g':
+                        raise Unsupported('call with error result in a short-circuited operand')
+                    if parts:
+                        prev = '(' + (' ∧ ' if is_and else ' ∨ ').join(parts) + ')'
+                        gate = prev if is_and else f'¬ {prev}'
+                        pre.append(('g', f'({gate} ∧ ({item[1]}))', item[2]))
+                    else:
+                        pre.append(item)
+                parts.append(c)
             if any(p in ('True', 'False') for p in parts):
                 raise Unsupported('static test inside and/or')
-            return '(' + (' ∧ ' if isinstance(node.op, ast.And) else ' ∨ ').join(parts) + ')'
+            return '(' + (' ∧ ' if is_and else ' ∨ ').join(parts) + ')'
         if isinstance(node, ast.UnaryOp) and isinstance(node.op, ast.Not):
             c = self.cond(node.operand, env, pre)
             if c in ('True', 'False'):
@@ -590,6 +606,14 @@ class TFn:
         c = self.cond(s.test, env, pre)
         if c in ('True', 'False'):
             return self.wrap(pre, self.block((s.body if c == 'True' else s.orelse) + rest, env, k))
+        if len(s.body) == 1 and isinstance(s.body[0], ast.Raise) and not s.orelse and s.body[0].exc is not None:
+            # `if c: raise E(...)` -> error guard (the message is not modelled)
+            exc = s.body[0].exc
+            name = exc.func.id if isinstance(exc, ast.Call) and isinstance(exc.func, ast.Name) else getattr(exc, 'id', None)
+            err = {'ValueError': '.valueError', 'IndexError': '.indexError'}.get(name)
+            if err is None:
+                raise Unsupported(f'raise of {name}')
+            return self.wrap(pre + [('g', c, err)], self.block(rest, env, k))
         if self.contains_return(s.body + s.orelse):
             raise Unsupported('return / break / raise inside an if statement')
         inthen, inelse = self.assigned(s.body), self.assigned(s.orelse)
